@@ -556,7 +556,7 @@ impl Property for P {
     }
     fn assumptions(&self) -> Vec<String> {
         vec![
-            "a second as_new_flow after a successful one is not part of the menu (the request was moved into the new flow)".into(),
+            "a second as_new_flow after a successful one is kept out of the random menu and watched by a workload of its own (second-follow: a listed known finding)".into(),
             "Await100::proceed and Redirect::proceed are always permitted".into(),
         ]
     }
